@@ -663,4 +663,274 @@ theorem Good.txn_expire {t t' : Txn} {nowMs : Int} {nu nu' : Nu} {k : Nat}
       obtain ⟨rfl, _, rfl⟩ := e
       exact ⟨g.mono this.2, this.2⟩
 
+/-! ### the driver calls -/
+
+def SysGood (sch : SchemaEval) (s : Sys) : Prop := Good sch s.catalog s.nextId
+
+theorem SysGood.commit {s : Sys} {t : Txn} {nu' : Nu} (g : SysGood sch s)
+    (k : GoodFrom sch s.nextId (t.catalog, nu')) : SysGood sch (s.commit t nu') := by
+  unfold Sys.commit SysGood
+  split
+  · exact k.1
+  · exact g.mono k.2
+
+theorem SysGood.commit0 {s : Sys} {t : Txn} {oids : List V} (g : SysGood sch s)
+    (k : Good sch t.catalog s.nextId) : SysGood sch (s.commit t (s.nu oids)) :=
+  g.commit ⟨k, Nat.le_refl _⟩
+
+theorem SysGood.init : SysGood sch Sys.init := by
+  refine Good.of ?_ ⟨newColl false, by simp [Sys.init, newCatalog]⟩
+  intro h c hm
+  simp only [Sys.init, newCatalog, List.mem_singleton, Prod.mk.injEq] at hm
+  obtain ⟨rfl, rfl⟩ := hm
+  exact ⟨.new false, fun x hx => by simp [newColl] at hx, fun _ => rfl, fun e => absurd rfl e, .new false⟩
+
+theorem SysGood.step {s s' : Sys} {c : Call} {oids : List V} {r : Reply} (g : SysGood sch s)
+    (e : Sys.step sch s c oids = .ok (s', r)) : SysGood sch s' := by
+  have g0 : Good sch (Txn.mk s.catalog false).catalog (s.nu oids).nextId := g
+  unfold Sys.step at e
+  cases c with
+  | insertOne h doc =>
+    simp only at e
+    split at e
+    · cases e
+    · rename_i t r nu he
+      split at e
+      · cases e
+      · split at e
+        · simp only [Except.ok.injEq, Prod.mk.injEq] at e
+          obtain ⟨rfl, _⟩ := e
+          exact g.commit (Good.txn_insert g0 he)
+        · cases e
+  | insertMany h docs ordered =>
+    simp only at e
+    split at e
+    · cases e
+    · rename_i t r nu he
+      simp only [Except.ok.injEq, Prod.mk.injEq] at e
+      obtain ⟨rfl, _⟩ := e
+      exact g.commit (Good.txn_insert g0 he)
+  | find h q o =>
+    simp only at e
+    split at e
+    · cases e
+    · split at e
+      · cases e
+      · simp only [Except.ok.injEq, Prod.mk.injEq] at e
+        obtain ⟨rfl, _⟩ := e
+        exact g
+  | findOne h q o =>
+    simp only at e
+    split at e
+    · cases e
+    · simp only [Except.ok.injEq, Prod.mk.injEq] at e
+      obtain ⟨rfl, _⟩ := e
+      exact g
+    · split at e
+      · cases e
+      · simp only [Except.ok.injEq, Prod.mk.injEq] at e
+        obtain ⟨rfl, _⟩ := e
+        exact g
+  | count h q skip limit =>
+    simp only at e
+    split at e
+    · cases e
+    · simp only [Except.ok.injEq, Prod.mk.injEq] at e
+      obtain ⟨rfl, _⟩ := e
+      exact g
+  | estCount h =>
+    simp only at e
+    split at e
+    · cases e
+    · simp only [Except.ok.injEq, Prod.mk.injEq] at e
+      obtain ⟨rfl, _⟩ := e
+      exact g
+  | distinct h field q =>
+    simp only at e
+    split at e
+    · cases e
+    · simp only [Except.ok.injEq, Prod.mk.injEq] at e
+      obtain ⟨rfl, _⟩ := e
+      exact g
+  | updateOne h q u upsert fs =>
+    simp only at e
+    split at e
+    · cases e
+    · rename_i t r nu he
+      simp only [Except.ok.injEq, Prod.mk.injEq] at e
+      obtain ⟨rfl, _⟩ := e
+      exact g.commit (Good.txn_update (ac := acOf sch) g0 he)
+  | updateMany h q u upsert fs =>
+    simp only at e
+    split at e
+    · cases e
+    · rename_i t r nu he
+      simp only [Except.ok.injEq, Prod.mk.injEq] at e
+      obtain ⟨rfl, _⟩ := e
+      exact g.commit (Good.txn_update (ac := acOf sch) g0 he)
+  | replaceOne h q repl upsert =>
+    simp only at e
+    split at e
+    · cases e
+    · split at e
+      · cases e
+      · rename_i t r nu he
+        simp only [Except.ok.injEq, Prod.mk.injEq] at e
+        obtain ⟨rfl, _⟩ := e
+        exact g.commit (Good.txn_replace (ac := acOf sch) g0 he)
+  | deleteOne h q =>
+    simp only at e
+    split at e
+    · cases e
+    · rename_i t r nu he
+      simp only [Except.ok.injEq, Prod.mk.injEq] at e
+      obtain ⟨rfl, _⟩ := e
+      exact g.commit (Good.txn_delete g0 he)
+  | deleteMany h q =>
+    simp only at e
+    split at e
+    · cases e
+    · rename_i t r nu he
+      simp only [Except.ok.injEq, Prod.mk.injEq] at e
+      obtain ⟨rfl, _⟩ := e
+      exact g.commit (Good.txn_delete g0 he)
+  | findOneAndDelete h q sort proj =>
+    simp only at e
+    split at e
+    · cases e
+    · rename_i t r nu he
+      split at e
+      · cases e
+      · simp only [Except.ok.injEq, Prod.mk.injEq] at e
+        obtain ⟨rfl, _⟩ := e
+        exact g.commit (Good.txn_delete g0 he)
+  | findOneAndReplace h q repl sort proj upsert after =>
+    simp only at e
+    split at e
+    · cases e
+    · split at e
+      · cases e
+      · rename_i t r nu he
+        split at e
+        · cases e
+        · simp only [Except.ok.injEq, Prod.mk.injEq] at e
+          obtain ⟨rfl, _⟩ := e
+          exact g.commit (Good.txn_replace (ac := acOf sch) g0 he)
+  | findOneAndUpdate h q u sort proj upsert after fs =>
+    simp only at e
+    split at e
+    · cases e
+    · rename_i t r nu he
+      split at e
+      · cases e
+      · simp only [Except.ok.injEq, Prod.mk.injEq] at e
+        obtain ⟨rfl, _⟩ := e
+        exact g.commit (Good.txn_update (ac := acOf sch) g0 he)
+  | bulkWrite h models ordered =>
+    simp only at e
+    split at e
+    · cases e
+    · split at e
+      · cases e
+      · rename_i t results nu he
+        simp only [Except.ok.injEq, Prod.mk.injEq] at e
+        obtain ⟨rfl, _⟩ := e
+        exact g.commit (Good.txn_bulk (ac := acOf sch) g0 he)
+  | createIndex h name config =>
+    simp only at e
+    split at e
+    · cases e
+    · rename_i t nm he
+      simp only [Except.ok.injEq, Prod.mk.injEq] at e
+      obtain ⟨rfl, _⟩ := e
+      exact g.commit0 (Good.txn_createIndex g0 he)
+  | dropIndex h name =>
+    simp only at e
+    split at e
+    · cases e
+    · rename_i t he
+      simp only [Except.ok.injEq, Prod.mk.injEq] at e
+      obtain ⟨rfl, _⟩ := e
+      exact g.commit0 (Good.txn_dropIndex g0 he)
+  | dropAllIndexes h =>
+    simp only at e
+    split at e
+    · cases e
+    · rename_i t he
+      simp only [Except.ok.injEq, Prod.mk.injEq] at e
+      obtain ⟨rfl, _⟩ := e
+      exact g.commit0 (Good.txn_dropIndex g0 he)
+  | dropIndexByKey h key =>
+    simp only at e
+    split at e
+    · cases e
+    · rename_i t he
+      simp only [Except.ok.injEq, Prod.mk.injEq] at e
+      obtain ⟨rfl, _⟩ := e
+      exact g.commit0 (Good.txn_dropIndexByKey g0 he)
+  | listIndexes h =>
+    simp only at e
+    split at e
+    · cases e
+    · simp only [Except.ok.injEq, Prod.mk.injEq] at e
+      obtain ⟨rfl, _⟩ := e
+      exact g
+  | createCollection h =>
+    simp only at e
+    split at e
+    · cases e
+    · rename_i t he
+      simp only [Except.ok.injEq, Prod.mk.injEq] at e
+      obtain ⟨rfl, _⟩ := e
+      exact g.commit0 (Good.txn_create g0 he)
+  | dropCollection h =>
+    simp only at e
+    split at e
+    · cases e
+    · rename_i t nu he
+      simp only [Except.ok.injEq, Prod.mk.injEq] at e
+      obtain ⟨rfl, _⟩ := e
+      exact g.commit (Good.txn_drop g0 he)
+  | dropDatabase db =>
+    simp only at e
+    split at e
+    · cases e
+    · rename_i t nu he
+      simp only [Except.ok.injEq, Prod.mk.injEq] at e
+      obtain ⟨rfl, _⟩ := e
+      exact g.commit (Good.txn_drop g0 he)
+  | listCollections db q =>
+    simp only at e
+    split at e
+    · cases e
+    · split at e
+      · cases e
+      · simp only [Except.ok.injEq, Prod.mk.injEq] at e
+        obtain ⟨rfl, _⟩ := e
+        exact g
+  | listDatabases q =>
+    simp only at e
+    split at e
+    · cases e
+    · simp only [Except.ok.injEq, Prod.mk.injEq] at e
+      obtain ⟨rfl, _⟩ := e
+      exact g
+  | expire nowMs =>
+    simp only at e
+    split at e
+    · cases e
+    · rename_i t n nu he
+      simp only [Except.ok.injEq, Prod.mk.injEq] at e
+      obtain ⟨rfl, _⟩ := e
+      exact g.commit (Good.txn_expire g0 he)
+
+theorem SysGood.run {s : Sys} (g : SysGood sch s) (calls : List (Call × List V)) :
+    SysGood sch (Sys.run sch s calls) := by
+  unfold Sys.run
+  refine foldl_inv (SysGood sch) _ ?_ calls s g
+  intro b a hb
+  split
+  · rename_i s' r he; exact hb.step he
+  · exact hb
+
 end Lungo
